@@ -3,8 +3,8 @@ package main
 func init() {
 	register(&Property{
 		Meta: PropMeta{
-			ID:    "C15",
-			Level: "proof",
+			ID:          "C15",
+			Level:       "proof",
 			Explanation: "ORD order-taint analysis over the whole package (every function of github.com/jessevdk/go-flags in the default linux build): every source of incidental order — range over a map, reflect MapKeys/MapRange, go, select, math/rand, time.Now — is enumerated from the SSA of /repo's current tree, and each must be (O1) sorted on every path before it escapes its function (return across the API, argument of a call, store to non-local memory; unexported returns are followed into every caller) or (O2) consumed by a loop body whose only effects are keyed by the iteration key / commutative, with no early exit and no impure call. Anything else is VIOLATED. This is a sound sufficient condition for 'no output is a function of iteration order'; it proves that abstraction, not byte-identity of outputs in general.",
 			NotDecided:  "nondeterminism inside user callbacks (Marshaler, Unmarshaler, Completer, Execute); the wall clock used for the man page date (allow-listed input); totality of comparators passed to sort (keys of one map are distinct); behaviour of the trusted sorters and of fmt/filepath.Glob.",
 			Trusted:     []string{"go/ssa lowering (x/tools v0.29.0)", "go/types", "sanitiser table: sort.Sort/Stable/Strings/Ints/Slice/SliceStable order their argument deterministically", "purity table for strings/strconv/utf8/reflect getters/fmt.Sprintf", "distinctness of the keys of one map", "filepath.Glob returns sorted names; fmt prints maps sorted"},
